@@ -38,7 +38,7 @@ MCNext ==
     \/ \E c \in Cods : \E s \in SeqsUpTo(Two(c), MaxLen) :
           Checked(FromSyms(0, c, s), IntLaw(c, s) /\ ImageLaw(c, s))
     \/ /\ reg[0].c # "none" /\ Len(reg[0].s) > 0
-       /\ Checked(ToInt(WholeReg(0), TRUE, 64),
+       /\ Checked(ToInt(WholeReg(0), TRUE, 64, ToIntRes(WholeReg(0), TRUE, 64)),
                   out'.ok /\ BitsOfLimbs(out'.limbs) = ZeroExt(Pack(reg[0].s, W(reg[0].c)), 64))
     \/ /\ reg[0].c # "none"
        /\ LET img == Limbs(Pack(reg[0].s, W(reg[0].c)), WordsFor(Len(reg[0].s) * W(reg[0].c)))
